@@ -17,7 +17,7 @@ EXPLANATION = (
     "by a raw String; (R4) keyword / built-in name recognition goes through cmp_str or "
     "eq_ignore_ascii_case; (R5) exactly the CR[LF] and LF line endings are recognised; (R6) the "
     "lexer never matches an ASCII letter constant exactly; (R7) two characters of program text are "
-    "never compared (order or equality) without case folding; (R10) every parser function that recognises the end of a line as the end of something recognises a colon too, or is tabled with the reason a colon is no alternative there; (R11) no token rule of the lexer raises a fatal error, because the lexer also tokenises comment and string text; (R12) every use of the one-token end-of-statement lookahead skips optional blanks first; (R13) the guard of the CR LF look-ahead in create_row_col_view is exactly `the next character exists` (not stronger); (R14) the parenthesis-only parser is used by the list of primary expressions only, so an operand that starts with `(` directly after a keyword is still a whole expression.")
+    "never compared (order or equality) without case folding; (R10) every parser function that recognises the end of a line as the end of something recognises a colon too, or is tabled with the reason a colon is no alternative there; (R11) no token rule of the lexer raises a fatal error, because the lexer also tokenises comment and string text; (R12) every use of the one-token end-of-statement lookahead skips optional blanks first; (R13) the guard of the CR LF look-ahead in create_row_col_view is exactly `the next character exists` (not stronger); (R14) the parenthesis-only parser is used by the list of primary expressions only, so an operand that starts with `(` directly after a keyword is still a whole expression; (R15) every parser that consumes a line end as a separator is followed by the repetition that skips blank lines and indentation.")
 NOT_DECIDED = [
     "equality of parse trees under layout transformations (blanks, comments, colon vs newline)",
     "row counting in create_row_col_view beyond the CR / LF guards and the tightness of the CR LF look-ahead guard (R13)",
@@ -602,6 +602,62 @@ def r14_parenthesis_is_only_a_primary(ctx, rule="C09.R14"):
     ctx.require(rule, 1)
 
 
+def r15_line_end_is_followed_by_blank_skipping(ctx, rule="C09.R15"):
+    """`blank lines never change meaning`: whoever consumes the end of a line as a separator (after a
+    statement, after a comment) also skips the blank lines and indentation that follow - the
+    repetition over {Eol, Whitespace}.  Sibling rule: each parser function that matches an Eol token
+    (Include mode, outside the lexer, not a mere look-ahead) either is such a repetition itself, or
+    calls one, or all of its callers do."""
+    prog = ctx.prog
+    owners = {}
+    for f in prog.fns.values():
+        if f.crate != "rusty_parser" or f.kind == "const":
+            continue
+        o = prog.enclosing_fn(f) or f
+        acc = owners.setdefault(o.id, {"fn": o, "tt": set(), "exclude": False, "calls": set(), "peek": False, "many": False})
+        for body in [f.body] + list(f.promoted):
+            for blk in body.blocks:
+                for st in blk["s"]:
+                    r = st.get("r", {})
+                    if st["k"] == "assign" and r.get("k") == "agg":
+                        if (r.get("adt") or "").endswith("::TokenType"):
+                            acc["tt"].add(r["variant"])
+                        if (r.get("adt") or "").endswith("::MatchMode") and r.get("variant") == "Exclude":
+                            acc["exclude"] = True
+        for _b, t in f.body.calls():
+            c = mir.callee_of(t)
+            nm = (t.get("cpath") or "").split("::")[-1]
+            if c in prog.fns and prog.fns[c].crate == "rusty_parser":
+                acc["calls"].add((prog.enclosing_fn(prog.fns[c]) or prog.fns[c]).id)
+            if nm in ("peek", "peek_token"):
+                acc["peek"] = True
+            if nm in ("many_allow_none", "zero_or_more", "many", "one_or_more"):
+                acc["many"] = True
+    skippers = {i for i, a in owners.items() if {"Eol", "Whitespace"} <= a["tt"] and a["many"] and not a["exclude"]}
+    if not skippers:
+        raise CheckError("%s: no repetition over {Eol, Whitespace} found" % rule)
+    callers = {}
+    for i, a in owners.items():
+        for c in a["calls"]:
+            callers.setdefault(c, set()).add(i)
+    n = 0
+    for i, a in sorted(owners.items()):
+        if "Eol" not in a["tt"] or a["exclude"] or a["peek"] or i in skippers or "::tokens::" in i:
+            continue
+        n += 1
+        name = a["fn"].path.split("::", 1)[1]
+        own = bool(a["calls"] & skippers)
+        cs = callers.get(i, set())
+        via_callers = bool(cs) and all(owners[c]["calls"] & skippers for c in cs if c in owners)
+        ctx.decide(own or via_callers, rule, "%s:%s" % (rule, name), a["fn"].loc,
+                   "the line end it consumes is followed by the blank-skipping repetition",
+                   "%s consumes the end of a line but neither it nor its callers go on to skip the blank lines and "
+                   "indentation that follow (no repetition over Eol / Whitespace): a blank line after this "
+                   "separator makes a valid program unparsable" % name)
+    ctx.analysed_units(rule, line_end_consumers=n, blank_skippers=sorted(owners[i]["fn"].name for i in skippers))
+    ctx.require(rule, 2)
+
+
 def run(ctx):
     common.install(ctx)
     r1_folding_pair(ctx)
@@ -620,3 +676,4 @@ def run(ctx):
     r12_statement_end_lookahead_skips_blanks(ctx)
     r13_lookahead_guard_is_tight(ctx)
     r14_parenthesis_is_only_a_primary(ctx)
+    r15_line_end_is_followed_by_blank_skipping(ctx)
